@@ -460,3 +460,65 @@ def tables_c15(out, notes):
 
 
 GENERATORS = [tables_c15]
+
+
+# ---------------------------------------------------------------------------- which handlers see CRITICAL records
+def tables_c15_configs(out, notes):
+    """c15_log_configs: for every invocation environment of `rpft create_flows` that translator/c15_configs.py
+    discovers in the tree at hand (environment variables the package reads x plausible values, working
+    directories, options), what the logging configuration is when the library starts to work:
+        (id, (start, (effective level of logger "main", [(lowest level at which the handler ends the process,
+                                                            exit status)] in call order,
+                      (lowest level at which logger.log ends the process, exit status))))
+    start: 0 = the command reaches the library call; 1 = it ends before (non-zero status, output untouched);
+    2 = ends before with status 0, output untouched; 3 = anything else.  1000 = never.  For start <> 0 the
+    last pair is (1000, status the command ended with).
+    Configurations the argument parser rejects (usage error) are not reachable and are left out."""
+    import hashlib
+
+    import c15_configs as C
+    from gen_tables import SRC
+
+    disc = C.discover(SRC, sys.executable)
+    if disc.get("parser_error"):
+        raise Refuse(f"C15 configurations: the create_flows subcommand cannot be introspected: {disc['parser_error']}")
+    cfgs = C.enumerate_configs(disc)
+    results = C.probe_all(cfgs, disc, SRC, sys.executable)
+    rows, names = [], []
+    for i, (c, r) in enumerate(zip(cfgs, results)):
+        if r.get("unavailable") or r.get("usage_error"):
+            notes.append(f"C15 config {i} {c['name']}: " + ("cannot be set up on this machine" if r.get("unavailable") else "rejected by the argument parser"))
+            continue
+        if r.get("died") and "timeout" in (r.get("error") or ""):
+            raise Refuse(f"C15 configurations: the probe of {c['name']} timed out")
+        st = C.start_code(r)
+        lg = r.get("log") or {}
+        hs = [(h["threshold"], h["exit"]) for h in lg.get("handlers", [])] if st == 0 else []
+        level = lg.get("level", 0) if st == 0 else 0
+        # a configuration that never gets to the library call: the status it ended with, in place of the exit status
+        pre = r.get("status")
+        obs = tuple(lg.get("observed") or (C.NEVER, 0)) if st == 0 else (C.NEVER, pre if isinstance(pre, int) and pre >= 0 else 1)
+        rows.append((i, st, level, hs, obs))
+        what = ", ".join(f"{h['cls']}[{h['target']}] stops at {h['threshold']}" for h in lg.get("handlers", [])) if st == 0 \
+            else f"ends before the library call: status {r.get('status')} ({(r.get('error') or '')[:80]})"
+        names.append(f"C15 config {i} {c['name']}: {what}")
+    if not rows or rows[0][0] != 0 or rows[0][1] != 0:
+        raise Refuse("C15 configurations: the default invocation does not reach the library call; nothing can be measured "
+                     f"({results[0].get('error')}, status {results[0].get('status')}, {results[0].get('stderr_tail', '')[-200:]})")
+    digest = int(hashlib.sha256("\n".join(c["name"] for c in cfgs).encode()).hexdigest()[:12], 16)
+
+    def row(r):
+        i, st, level, hs, obs = r
+        hl = "[" + "; ".join(f"({t}%N, {e}%N)" for t, e in hs) + "]"
+        return f"({i}%N, ({st}%N, ({level}%N, ({hl}, ({obs[0]}%N, {obs[1]}%N)))))"
+
+    out.append("Definition c15_log_configs : list (N * (N * (N * (list (N * N) * (N * N))))) := [\n  "
+               + ";\n  ".join(row(r) for r in rows) + "].")
+    out.append(f"Definition c15_log_configs_digest : N := {digest}%N.")
+    notes.append(f"C15: {len(rows)} invocation environments probed; environment variables read by the package: "
+                 f"{disc['env_vars']} (computed names at {disc['env_dynamic']}, environment used as a whole at {disc['env_opaque']}); "
+                 f"options of create_flows: {[o['option_strings'] or o['dest'] for o in disc['options']]}; log files: {disc['log_files']}")
+    notes.extend(names)
+
+
+GENERATORS.append(tables_c15_configs)
